@@ -553,6 +553,10 @@ class SInt(object):
         if bc is not None:
             if bc == 0:
                 raise ZeroDivisionError("integer division or modulo by zero")
+            if c.bv and bc > 0 and (bc & (bc - 1)) == 0:
+                # power of two: arithmetic shift / mask are exactly floor div / mod
+                k = bc.bit_length() - 1
+                return _mk(at >> k), _mk(at & lift(bc - 1))
             if c.bv:
                 bt = lift(bc)
                 m = z3.SRem(at, bt)
@@ -861,6 +865,8 @@ def _ival1(t, memo):
         return c.bounds.get(t.decl().name(), (None, None))
     kind = t.decl().kind()
     args = [_ival(a, memo) for a in t.children()] if kind != z3.Z3_OP_ITE else None
+    kind = {z3.Z3_OP_BADD: z3.Z3_OP_ADD, z3.Z3_OP_BSUB: z3.Z3_OP_SUB,
+            z3.Z3_OP_BMUL: z3.Z3_OP_MUL, z3.Z3_OP_BNEG: z3.Z3_OP_UMINUS}.get(kind, kind)
     if kind == z3.Z3_OP_ADD:
         lo = 0
         hi = 0
